@@ -91,6 +91,7 @@ type vfNet struct {
 	faultsOn bool
 	armedAt  time.Duration
 	frozen   bool // hold all packets (not delivered until released)
+	frozenDir [2]bool
 	held     []*vfQueued
 	stopped  bool
 	lastDue  [2]time.Duration
@@ -286,7 +287,7 @@ func (n *vfNet) send(from int, raw []byte) {
 		n.lastDue[from] = due
 	}
 	item := &vfQueued{due: due, seq: n.seq.Add(1), to: 1 - from, raw: cp, from: from, ord: ord}
-	if n.frozen {
+	if n.frozen || n.frozenDir[from] {
 		n.held = append(n.held, item)
 	} else {
 		heap.Push(&n.q, item)
@@ -294,7 +295,7 @@ func (n *vfNet) send(from int, raw []byte) {
 	if dup {
 		n.nDup++
 		d := &vfQueued{due: due + dupDelay, seq: n.seq.Add(1), to: 1 - from, raw: cp, from: from, ord: ord, dup: true}
-		if n.frozen {
+		if n.frozen || n.frozenDir[from] {
 			n.held = append(n.held, d)
 		} else {
 			heap.Push(&n.q, d)
@@ -329,9 +330,17 @@ func (n *vfNet) dropQueued() {
 	n.mu.Unlock()
 }
 
+// freezeDir holds every packet written by side `from` from now on.
+func (n *vfNet) freezeDir(from int) {
+	n.mu.Lock()
+	n.frozenDir[from] = true
+	n.mu.Unlock()
+}
+
 func (n *vfNet) release() {
 	n.mu.Lock()
 	n.frozen = false
+	n.frozenDir = [2]bool{}
 	now := n.now()
 	for _, it := range n.held {
 		if it.due < now {
